@@ -15,6 +15,7 @@ from .c01 import classify_orderings, shape_key
 
 class C02(Property):
     id = "C02"
+    anchors = ('finam.schedule:Composition.run', 'finam.schedule:Composition._update_recursive', 'finam.schedule:_find_dependencies', 'finam.sdk.adapter:TimeDelayAdapter.get_data')
     technique = "runtime monitor on every update(): justification-chain search on an independent scheduling model + comparison of model-derived and actually requested source times"
     rule = (
         "same generator family as C01 with more multi-delay links (fixed+fixed, fixed+to-pull around pass-through adapters), parallel links "
